@@ -157,6 +157,12 @@ def bytes_jobs(tier_):
             J.seed_job(corpus.cfg(P, ext=True, buf=True), rec=False, deep=0)
             J.seed_job(corpus.cfg(P, 60, 300, muts=corpus.MUTS, rate=0.5), rec=False, deep=0)
             J.seed_job(corpus.cfg(P, 60, 300, muts=corpus.MUTS, rate=0.5, unsafe=True, ext=True), rec=False, deep=0)
+        # histories: the judged pickle is the 2nd .. 5th produced by one generator
+        for k in range(150 if q else 1500):
+            J.seed_job(corpus.cfg(P), rec=False, deep=0, warm=1 + k % 4)
+        for k in range(30 if q else 300):
+            J.bytes_job(corpus.cfg(P), blen=3000, rec=False, deep=0, warm=1 + k % 3)
+            J.seed_job(corpus.cfg(P, 60, 300, muts=corpus.MUTS, rate=0.5), rec=False, deep=0, warm=1 + k % 3)
         for kind in ("ff", "zero", "empty", "ramp"):
             J.bytes_job(corpus.cfg(P, ext=True, buf=True), kind=kind, blen=4000, rec=False, deep=0)
             J.bytes_job(corpus.cfg(P, 60, 300, muts=corpus.MUTS, rate=1.0, unsafe=True, ext=True, buf=True), kind=kind, blen=4000, rec=False, deep=0)
@@ -465,9 +471,19 @@ def guards_stage(tier_, key):
         build_harness()
         seeds = [sub_seed("guards", i) % (1 << 32) for i in range(4)] + [2 ** 64 - 1, 2 ** 64 - 2]
         specs = []
+        main_seen = set()
         for t, path in tabs:
-            specs.append({"cfg": corpus.cfg(t["P"], 0, 0, ext=t["ext"], buf=t["buf"], unsafe=t["unsafe"]), "table": path, "memo_one": t["keys"], "seeds": seeds,
-                          "tag": "P%d%s%s%s depth<=%d%s" % (t["P"], "+ext" if t["ext"] else "", "+buf" if t["buf"] else "", " unsafe" if t["unsafe"] else "", t["depth"], " memo{0}" if t["keys"] else "")})
+            tag = "P%d%s%s%s depth<=%d%s" % (t["P"], "+ext" if t["ext"] else "", "+buf" if t["buf"] else "", " unsafe" if t["unsafe"] else "", t["depth"], " memo{0}" if t["keys"] else "")
+            sp = {"cfg": corpus.cfg(t["P"], 0, 0, ext=t["ext"], buf=t["buf"], unsafe=t["unsafe"]), "table": path, "memo_one": t["keys"], "seeds": seeds, "tag": tag}
+            # one-step conformance on the implementation side: from every abstract stack up to depth 2 (3 in the
+            # thorough tier), built with empty and with non-empty containers, EVERY enabled opcode is forced
+            # and the edge validated against the reference machine by TraceEdges
+            main = not t["unsafe"] and not t["keys"] and t["P"] not in main_seen
+            if main:
+                main_seen.add(t["P"])
+                sp["all_edges_depth"] = 2 if tier_ == "quick" else 3
+                specs.append(dict(sp, variant=1, tag=tag + " non-empty containers"))
+            specs.append(sp)
         sf = os.path.join(d, "guard_specs.json"); json.dump(specs, open(sf, "w"))
         prefix = os.path.join(d, "guards_")
         p = run([PFV, "guards", sf, prefix], timeout=7200)
